@@ -250,7 +250,7 @@ def main():
     print("wrote MANIFEST.json with", len(checks), "checks")
 
 
-HOOK_COMMITS = ["a2f8d7c"]
+HOOK_COMMITS = ["a2f8d7c", "6a7b11e"]
 NOT_APPLICABLE = {}
 
 if __name__ == "__main__":
